@@ -249,6 +249,48 @@ def check_C07(ctx):
             if False in vs and a["outcome"][0] in ("ret", "exit", "panic") and not c["_extra"]:
                 if a["trace"]:
                     ctx.violation("policy", "level %d of %r has invalid arguments but callbacks ran: %r" % (vs.index(False), c["argv"], a["trace"]), case=c)
+    # a value that does not convert, in every position of a repeated multi-valued variable, at the root
+    # and in a sub-command: the invocation is rejected whatever follows the bad value
+    bad_cases = []
+    for kind, bad, good in (("ints", "x", "3"), ("floats", "1.2.3", "2.5"), ("ints", "", "7"), ("floats", "abc", "1e3")):
+        for pattern in ([bad, good], [good, bad], [good, bad, good], [bad], [bad, good, good]):
+            for where in ("root", "sub"):
+                for pol in (0, 1, 2):
+                    for as_opt in (True, False):
+                        if as_opt:
+                            d = gen.mkopt(kind, "n num")
+                            argv = [t for v in pattern for t in ("-n", v)] if "" not in pattern else [t for v in pattern for t in ("--num", v)]
+                            if "" in pattern:
+                                continue        # an empty separate value is a spec mismatch, not a conversion
+                            spec = "[-n...]"
+                        else:
+                            if "" in pattern:
+                                continue
+                            d = gen.mkarg(kind, "N")
+                            argv = list(pattern)
+                            spec = "N..."
+                        leaf = gen.mkcmd("run r", decls=[copy.deepcopy(d)], spec=spec, policy=None)
+                        leaf["action"] = {"k": "ret"}
+                        leaf["before"], leaf["after"] = {"k": "ret"}, {"k": "ret"}
+                        if where == "root":
+                            root = gen.mkcmd("app", decls=[copy.deepcopy(d)], spec=spec, policy=pol)
+                            root["action"] = {"k": "ret"}
+                            root["before"], root["after"] = {"k": "ret"}, {"k": "ret"}
+                            av = argv
+                        else:
+                            root = gen.mkcmd("app", decls=[], spec="", policy=pol, subs=[leaf])
+                            root["before"], root["after"] = {"k": "ret"}, {"k": "ret"}
+                            av = ["run"] + argv
+                        bad_cases.append({"op": "run", "env": {}, "version": None, "root": root, "argv": av, "_pol": pol})
+    number(bad_cases, start=len(cases))
+    res3 = correspond(ctx, bad_cases, ["outcome", "trace", "stderr"], "unconvertible value in every position")
+    for c in bad_cases:
+        a, _ = res3[c["id"]]
+        want = {0: ("ret", "conv"), 1: ("exit", 2), 2: ("panic", "err:conv")}[c["_pol"]]
+        if a["trace"] or tuple(a["outcome"][:2]) != want or not a["stderr"] or a["stderr"][0] != "Error: <conv>":
+            ctx.violation("policy", "argv %r holds a value that does not convert (policy %d) but the invocation ended %r with trace %r and error line %r"
+                          % (c["argv"], c["_pol"], a["outcome"], a["trace"], a["stderr"][:1]), case=c)
+    ctx.stream("unconvertible value in every position", len(bad_cases))
     ctx.stream("trees x policies x rejections", 0, **{k: v for k, v in stats.items() if k != "by_policy"},
                policy_continue=stats["by_policy"][0], policy_exit=stats["by_policy"][1], policy_panic=stats["by_policy"][2])
     ctx.sample({"argv": cases[0]["argv"]})
@@ -663,8 +705,11 @@ def check_C16(ctx):
             r1 = gen.mkcmd("app", decls=copy.deepcopy(decls), spec="", policy=pol)
             r2 = gen.mkcmd("app", decls=copy.deepcopy(decls), spec=explicit, policy=pol)
             pairs.append((len(cases), explicit))
-            cases.append({"op": "run", "env": env, "version": None, "root": r1, "argv": argv})
-            cases.append({"op": "run", "env": env, "version": None, "root": r2, "argv": argv})
+            # "for every command line": also the second one given to the same application
+            # (not with instrumented values, whose call logs would hold both runs)
+            rep = 2 if rng.random() < 0.3 and not any(d["kind"] == "custom" for d in decls) else 1
+            cases.append({"op": "run", "env": env, "version": None, "root": r1, "argv": argv, "repeat": rep})
+            cases.append({"op": "run", "env": env, "version": None, "root": r2, "argv": argv, "repeat": rep})
     res = correspond(ctx, cases, ALL, "implicit and explicit spec")
     for i, explicit in pairs:
         a1, _ = res[cases[i]["id"]]
